@@ -105,6 +105,9 @@ def items_of(node) -> str:
 # ---- generators -----------------------------------------------------------------------
 
 RICH = ["a", "b", "é", "漢", " ", " ", "\t", "\n", "<", "&", '"', "'", "]", ">"]
+# characters that ARE legal in XML 1.0 text and that some string routine or other takes for a blank or a line
+# boundary (str.split(), str.splitlines(), str.isspace(), \s): to ODF they are ordinary characters
+EXOTIC = ["\u0085", "\u00a0", "\u2028", "\u2029", "\u3000", "\u200b", "\u1680", "\u2003", "\ufeff"]
 
 
 def splits(s: str, k: int):
@@ -125,7 +128,8 @@ def run(chk: core.Check) -> None:
     rng = chk.rng
     chk.rule = (
         "strings over {a,space,tab,newline} exhaustively to length L (quick 6, thorough 8), every 2- and 3-way split of the strings up to "
-        "length L2 (quick 5, thorough 6), random strings over a rich alphabet (non-ASCII, XML specials) with random 1-4-way splits, for "
+        "length L2 (quick 5, thorough 6), random strings over a rich alphabet (non-ASCII, XML specials) with random 1-4-way splits, random strings "
+        "mixing it with the Unicode blanks and line separators legal in XML (U+0085 U+00A0 U+1680 U+2003 U+2028 U+2029 U+200B U+3000 U+FEFF), for "
         "Paragraph / Span / Header, plus appends interleaved with Span children; non-trivial = the text has a run of >= 2 spaces, a "
         "leading/trailing space, a tab or a newline; distinct by (class, pieces)"
     )
@@ -152,6 +156,14 @@ def run(chk: core.Check) -> None:
         cuts = sorted(rng.randint(0, n) for _ in range(k - 1))
         pts = [0] + cuts + [n]
         cases.append((rng.choice("PPPSH"), [("A", s[pts[i]:pts[i + 1]]) for i in range(k)]))
+    for _ in range(chk.n(1500, 15000)):
+        n = rng.randint(1, 8)
+        s = "".join(rng.choice(EXOTIC) if rng.random() < 0.4 else rng.choice(RICH) for _ in range(n))
+        k = rng.randint(1, 3)
+        cuts = sorted(rng.randint(0, n) for _ in range(k - 1))
+        pts = [0] + cuts + [n]
+        cases.append((rng.choice("PPPSH"), [("A", s[pts[i]:pts[i + 1]]) for i in range(k)]))
+        chk.count("alphabet", "with Unicode blanks / line separators")
     # appends interleaved with inline children (Span with its own text)
     for _ in range(chk.n(1500, 15000)):
         ops = []
